@@ -26,6 +26,9 @@ def scenarios(workdir, repo):
         ("mid3cp", "merge", lambda: ["mid3cp", "--merge", "--write-v1", cp("silence-44-s.mp3", "src.mp3"), cp("vbri.mp3", "dst.mp3")]),
         ("mid3iconv", "convert", lambda: ["mid3iconv", "-e", "latin1", "-q", cp("silence-44-s.mp3", "a.mp3"), cp("id3v1v2-combined.mp3", "b.mp3")]),
         ("mid3iconv", "remove-v1", lambda: ["mid3iconv", "-e", "latin1", "-q", "--remove-v1", cp("id3v1v2-combined.mp3", "a.mp3"), cp("silence-44-s.mp3", "b.mp3")]),
+        ("mid3iconv", "force-v1", lambda: ["mid3iconv", "-e", "latin1", "-q", "--force-v1", cp("id3v1v2-combined.mp3", "a.mp3"), cp("silence-44-s-v1.mp3", "b.mp3")]),
+        ("mid3v2", "delete-v1", lambda: ["mid3v2", "--delete-v1", cp("id3v1v2-combined.mp3", "a.mp3"), cp("silence-44-s-v1.mp3", "b.mp3")]),
+        ("mid3v2", "delete-v2", lambda: ["mid3v2", "--delete-v2", cp("id3v1v2-combined.mp3", "a.mp3"), cp("silence-44-s.mp3", "b.mp3")]),
         ("moggsplit", "split", lambda: ["moggsplit", "--m3u", cp("multiplexed.spx", "m.spx"), cp("empty.ogg", "e.ogg")]),
     ]
 
